@@ -119,28 +119,28 @@ theorem held2_of_kept {m m' : Mgr} (hI : Inv m) (h : Kept m m') (ext : Nat → N
 
 /-- `add_var` under the no-gap guard keeps `sched`, `roots` and — the names of the existing
 levels stay — the meaning by name of every node -/
-theorem addVar_frame2 (m : Mgr) (ext : Nat → Nat) (h : GoodState m ext) (name : String)
-    (level : Option Int)
+theorem addVar_frame2 (m : Mgr) (ext : Nat → Nat) (hI : Inv m) (hO : OrderOK m.tbl)
+    (hr : RefExact m ext) (name : String) (level : Option Int)
     (hg : ∀ l : Int, level = some l → m.tbl.vars[name]? = none → l ≤ (m.nvars : Int)) :
     (addVar name level m).2.sched = m.sched ∧ (addVar name level m).2.roots = m.roots ∧
     Held2 ext m (addVar name level m).2 := by
-  rcases addVar_cases m h.order name level hg with he | ⟨hnew, he⟩
+  rcases addVar_cases m hO name level hg with he | ⟨hnew, he⟩
   · rw [he]
-    exact ⟨rfl, rfl, fun u hu => ⟨h.exact.mem_of_ext_pos hu, fun _ => rfl⟩⟩
+    exact ⟨rfl, rfl, fun u hu => ⟨hr.mem_of_ext_pos hu, fun _ => rfl⟩⟩
   · rw [he]
     refine ⟨rfl, rfl, fun u hu => ?_⟩
-    have hmu : m.tbl.Mem u := h.exact.mem_of_ext_pos hu
-    obtain ⟨-, hO', -, -, hmono, hden, -, -⟩ := addVar_new_spec m h.inv h.order name hnew _ rfl
+    have hmu : m.tbl.Mem u := hr.mem_of_ext_pos hu
+    obtain ⟨-, hO', -, -, hmono, hden, -, -⟩ := addVar_new_spec m hI hO name hnew _ rfl
     obtain ⟨hmem, hd⟩ := hden u hmu
     refine ⟨hmem, fun σ => ?_⟩
     show denN (addVarState m name).tbl u σ = denN m.tbl u σ
     unfold denN
     rw [hd]
-    apply den_agree_ge m.tbl h.inv.wf.toWF u hmu
+    apply den_agree_ge m.tbl hI.wf.toWF u hmu
     intro i _ hi'
     unfold Tbl.lift Tbl.nameOf
-    obtain ⟨v, hv⟩ := h.order.total i hi'
-    have h1 : m.tbl.vars[v]? = some i := (h.order.inv v i).mpr hv
+    obtain ⟨v, hv⟩ := hO.total i hi'
+    have h1 : m.tbl.vars[v]? = some i := (hO.inv v i).mpr hv
     rw [hv, (hO'.inv v i).mp (hmono v i h1)]
 
 /-- the embedded operations keep `sched` and `roots`, and every node the user holds with its
@@ -149,7 +149,7 @@ theorem runOp_frame2 (m : Mgr) (ext : Nat → Nat) (h : GoodState m ext) (op : U
     (runOp op m).2.sched = m.sched ∧ (runOp op m).2.roots = m.roots ∧
     Held2 ext m (runOp op m).2 := by
   rcases runOp_kept m ext h op hg with ⟨name, level, rfl⟩ | rfl | ⟨hk, -⟩
-  · exact addVar_frame2 m ext h name level hg.declare
+  · exact addVar_frame2 m ext h.inv h.order h.exact name level hg.declare
   · obtain ⟨m', he, hp, -⟩ := collectGarbage_good m ext h
     show (collectGarbage none m).2.sched = _ ∧ (collectGarbage none m).2.roots = _ ∧
       Held2 _ _ (collectGarbage none m).2
@@ -248,7 +248,7 @@ theorem no_sched_report (ext : Nat → Nat) (m : Mgr) (h : ReorderInv ext m) (hs
         rw [hres] at hres'
         cases hres'
         exact hne' rfl
-      · exact isSchedErr_of_ne (fun hh => by cases hh; exact hne rfl)
+      · exact isSchedErr_of_ne (fun hh => by cases hh; exact hne.ne_sched rfl)
   · exact isSchedErr_of_ne (reorderTo_keep (swapOK0 ext) o m ⟨h, hs⟩).total.2
 
 /-- from C07's state predicate and relation back to the invariant of histories -/
